@@ -46,6 +46,8 @@ def INVA(arr, n, ch, split=None, only=None):
         ("pulse-occupies-its-duration", Q([I], lambda k: (z3.And(0 <= k, k < n, s_kind(at(k)) == PULSE),
                                                        s_tf(at(k)) - s_ti(at(k)) == p_duration(s_pulse(at(k)))),
                                           pats=lambda k: [at(k)], split=sp)),
+        ("pulses-are-valid", Q([I], lambda k: (z3.And(0 <= k, k < n, s_kind(at(k)) == PULSE), valid_pulse_(s_pulse(at(k)))),
+                               pats=lambda k: [at(k)], split=sp)),
         ("min-duration", Q([I], lambda k: (z3.And(1 <= k, k < n),
                                            z3.And(z3.Implies(s_kind(at(k)) == DELAY, s_tf(at(k)) - s_ti(at(k)) >= m),
                                                   z3.Implies(s_kind(at(k)) == TARGET, z3.Or(s_tf(at(k)) == s_ti(at(k)), s_tf(at(k)) - s_ti(at(k)) >= m)))),
@@ -118,7 +120,10 @@ SLOTS = "_ChannelSchedule.slots"
 # small accessors
 # --------------------------------------------------------------------------
 inline(SF, "_ChannelSchedule.__getitem__")
-inline(SF, "_ChannelSchedule.in_eom_mode")
+contract(SF, "_ChannelSchedule.in_eom_mode", props=("C13", "C15", "C02"),
+         params={"self": ("ref", "_ChannelSchedule"), "time_slot": ("opt", ("ref", "_TimeSlot"))}, result="bool",
+         requires=lambda c: [("current-mode-query", c.time_slot.none), ("eom-blocks-wf", eb_len(c.old, T(c.self)) >= 0)],
+         ensures=lambda c: [("open-last-block", T(c.res) == in_eom(c.old, T(c.self)))])
 
 contract(SF, "_ChannelSchedule.adjust_duration", props=("C02", "C03", "C18"),
          params={"self": ("ref", "_ChannelSchedule"), "duration": "int"}, result="int",
@@ -215,7 +220,7 @@ contract(SF, "_ChannelSchedule.last_target", props=("C10",),
 
 contract(SF, "_ChannelSchedule.last_pulse_slot", props=("C10", "C03"),
          params={"self": ("ref", "_ChannelSchedule"), "ignore_detuned_delay": "bool"}, result=("ref", "_TimeSlot"),
-         requires=lambda c: INV(c.old, T(c.self), only=("len>=0",)),
+         requires=lambda c: INV(c.old, T(c.self), only=("len>=0", "kinds", "pulses-are-valid")),
          spec_defs=lambda c: [lpsi_def(*_arr_n(c.old, T(c.self)), T(c.ignore_detuned_delay)), IDD_DEF],
          ensures=lambda c: (lambda arr, n, ign: [
              ("is-most-recent-matching-slot", T(c.res) == z3.Select(arr, LPSI(arr, n, ign))),
@@ -233,10 +238,15 @@ from .lib import IS_DETUNED_DELAY  # noqa: E402
 _pp = z3.Const("p!idd", Ref)
 IDD_DEF = z3.BoolVal(True)   # is_detuned_delay is given its own contract below (result == IS_DETUNED_DELAY(pulse))
 
-contract(SF, "_ChannelSchedule.is_detuned_delay", props=("C10", "C06"), trusted=True,
-         note="reads waveform classes and amplitude[0] (numpy sample); IS_DETUNED_DELAY is its spec function",
+contract(SF, "_ChannelSchedule.is_detuned_delay", props=("C10", "C06", "C16"),
+         requires=lambda c: [("valid-pulse", valid_pulse_(T(c.pulse)))],
          params={"pulse": ("ref", "Pulse")}, result="bool",
          ensures=lambda c: [("is-spec", T(c.res) == IS_DETUNED_DELAY(T(c.pulse)))])
+
+
+def valid_pulse_(p):
+    from .pulse import valid_pulse
+    return valid_pulse(p)
 
 
 def last_phase_post(h, cs, res):
@@ -247,7 +257,7 @@ def last_phase_post(h, cs, res):
 
 contract(SF, "_Schedule._get_last_pulse_phase", props=("C15",),
          params={"self": ("ref", "_Schedule"), "channel": "str"}, result="real",
-         requires=lambda c: [has_channel(c)] + INV(c.old, S(c), only=("len>=0",)),
+         requires=lambda c: [has_channel(c)] + INV(c.old, S(c), only=("len>=0", "kinds", "pulses-are-valid")),
          ensures=lambda c: last_phase_post(c.old, S(c), T(c.res)),
          )
 
@@ -606,7 +616,7 @@ from .pulse import valid_pulse  # noqa: E402
 
 def mnps_requires(c):
     cs = S(c)
-    return fad_requires(c)[:2] + fad_requires(c)[3:] + INV(c.old, cs, only=("len>=0", "monotone", "kinds", "contiguous", "clock-aligned")) + [
+    return fad_requires(c)[:2] + fad_requires(c)[3:] + INV(c.old, cs, only=("len>=0", "monotone", "kinds", "contiguous", "clock-aligned", "pulses-are-valid")) + [
         ("valid_channel", valid_channel_f(cs_chan(cs)))] + EOMWF(c.old, cs) + [
         ("valid-pulse", valid_pulse(T(c.pulse))),
         ("pulse-duration-aligned", Al(clock(cs_chan(cs)), p_duration(T(c.pulse))))]
@@ -654,6 +664,7 @@ def mnps_ensures(c):
         ("is-a-pulse-slot", s_kind(res) == PULSE),
         ("keeps-targets", s_targets(res) == s_targets(last)),
         ("occupies-its-duration", tf == ti + p_duration(s_pulse(res))),
+        ("scheduled-pulse-is-valid", valid_pulse_(s_pulse(res))),
         ("same-waveforms", z3.And(p_duration(s_pulse(res)) == p_duration(T(c.pulse)),
                                   z3.Implies(drift_none, s_pulse(res) == T(c.pulse)))),
         ("not-before-channel-end", ti >= t0),
